@@ -301,9 +301,6 @@ pub fn eval(n: &Node, at: i64) -> R {
                         fit(t / 2, q)
                     }
                 }
-                Gcd | Lcm if vs.len() == 1 && vs[0] < 0 => {
-                    RV::Unspec("U3: gcd/lcm of a single negative argument")
-                }
                 Gcd => {
                     // of the magnitudes: only the final value has to fit (gcd(MIN, 0, -37) = 37)
                     let mut g: i128 = 0;
@@ -311,7 +308,8 @@ pub fn eval(n: &Node, at: i64) -> R {
                         g = gcd_i128(g, *v as i128);
                     }
                     if g > MAX {
-                        return RV::Unspec("U3: the gcd itself does not fit");
+                        // no i64 is the greatest common divisor, so no Ok value can be "the gcd of the arguments"
+                        return RV::MustErr("the gcd (2^63) does not fit i64");
                     }
                     RV::Val(g as i64, q)
                 }
@@ -326,7 +324,8 @@ pub fn eval(n: &Node, at: i64) -> R {
                         let b = (*v as i128).abs();
                         l = l / gcd_i128(l, b) * b;
                         if l > MAX {
-                            return RV::Unspec("U3: lcm does not fit");
+                            // no i64 is the least common multiple, so no Ok value can be "the lcm of the arguments"
+                            return RV::MustErr("the lcm does not fit i64");
                         }
                     }
                     RV::Val(l as i64, q)
